@@ -33,7 +33,20 @@ Definition exact_anchors : list (string * string * Q) := [
   ("ratio", "ratio", 1%Q); ("ratio", "percent", dec 1 (-2)); ("ratio", "part_per_million", dec 1 (-6));
   ("velocity", "speed_of_light_in_vacuum", 299792458%Q);
   ("frequency", "hertz", 1%Q); ("power", "watt", 1%Q); ("energy", "joule", 1%Q); ("force", "newton", 1%Q);
-  ("pressure", "pascal", 1%Q)
+  ("pressure", "pascal", 1%Q);
+  ("ratio", "part_per_hundred", dec 1 (-2)); ("ratio", "part_per_thousand", dec 1 (-3)); ("ratio", "per_mille", dec 1 (-3));
+  ("ratio", "part_per_ten_thousand", dec 1 (-4)); ("ratio", "basis_point", dec 1 (-4)); ("ratio", "part_per_billion", dec 1 (-9));
+  ("ratio", "part_per_trillion", dec 1 (-12)); ("ratio", "part_per_quadrillion", dec 1 (-15));
+  ("solid_angle", "steradian", 1%Q)
+].
+
+(* fractions of a turn: pi to 21 digits; the tables carry 16-digit (mil: 7-digit) roundings, checked in the seven-digit class *)
+Definition pi_q : Q := dec 314159265358979323846 (-20).
+Definition turn_anchors : list (string * string * Q) := [
+  ("angle", "revolution", 2 * pi_q); ("angle", "degree", pi_q / 180); ("angle", "gon", pi_q / 200); ("angle", "mil", pi_q / 3200);
+  ("angle", "minute", pi_q / 10800); ("angle", "second", pi_q / 648000);
+  ("solid_angle", "spat", 4 * pi_q); ("solid_angle", "square_degree", (pi_q / 180) * (pi_q / 180));
+  ("solid_angle", "square_minute", (pi_q / 10800) * (pi_q / 10800)); ("solid_angle", "square_second", (pi_q / 648000) * (pi_q / 648000))
 ].
 
 (* offsets of the two affine temperature scales *)
